@@ -57,8 +57,12 @@ def main():
         for r in ex.map(run_one, work):
             results['%s@%s' % (r['patch'], r['check'])] = r
             print('%-60s %s exit=%d %5.1fs %s' % (r['patch'], r['check'], r['exit'], r['wall_s'], ';'.join(r['sigs'][:2])[:120]), flush=True)
-    with open(res_path, 'w') as f:
-        json.dump(results, f, indent=1, sort_keys=True)
+            # written after every result (a batch may be stopped early); entries of other batches are kept
+            cur = json.load(open(res_path)) if os.path.exists(res_path) else {}
+            cur.update(results)
+            with open(res_path + '.tmp', 'w') as f:
+                json.dump(cur, f, indent=1, sort_keys=True)
+            os.replace(res_path + '.tmp', res_path)
 
 
 if __name__ == '__main__':
